@@ -51,6 +51,7 @@ func init() {
 			"each loaded index queried with every query of the phase; phase pull: ChartDownloader.ResolveChartVersion; phase resolve: Manager.Update -> internal/resolver.Resolve -> Chart.lock; " +
 			"urls alphabet (3 versions x 4 spellings of the urls field: URL, key absent, null, empty list) through load+get, pull and resolve in YAML and JSON; " +
 			"hyphen/plus alphabet (stable versions with '-' inside the build metadata, pre-releases carrying build metadata) through load+get, pull and resolve; " +
+			"dependency LISTS naming the same chart two (thorough: three) times via aliases with every ordered tuple of 6 ranges, each entry compared with its own independent resolution; " +
 			"histories on ONE path: load, then either modify the returned object with each public mutator or replace the file (every ordered pair of different files, mtime restored/newer/older), then load again - the second result is compared with an independent reading of the bytes then in the file; " +
 			"phase registry: every descending tag list x every query. distinct = (entry point, alphabet, spelling, entry list); every list is non-trivial (the empty list is the only degenerate one); " +
 			"evaluations = oracle evaluations (one per load, one per (list, query))",
@@ -73,6 +74,7 @@ func init() {
 			"resolve:urlless-top:nokey", "resolve:urlless-top:nullurls", "resolve:urlless-top:emptyurls",
 			"resolve:urlless-only:nokey", "resolve:urlless-only:nullurls", "resolve:urlless-only:emptyurls",
 			"pull:urlless-refused:nokey", "pull:urlless-refused:nullurls", "pull:urlless-refused:emptyurls",
+			"resolve-multi:locked", "resolve-multi:different-versions", "resolve-multi:error-later-only",
 			"get:stable-hyphen-build", "get:stable-hyphen-build-only", "get:prerelease-with-build-passed-over",
 			"pull:stable-hyphen-build", "pull:stable-hyphen-build-only",
 			"history:alias:drop-first", "history:alias:delete-chart", "history:alias:mustadd-newer", "history:alias:mustadd-older", "history:alias:merge-newer",
@@ -100,6 +102,8 @@ var alphabets = map[string][]string{
 	// '-' and '+' in the "wrong" part: stable versions whose build metadata holds a
 	// hyphen, pre-releases that carry build metadata (with and without a hyphen)
 	"hyph": {"1.2.0", "1.3.0", "1.3.0+b7", "1.3.0+git-4f2a", "0.8.0+build-7", "1.4.0-rc.1", "1.4.0-rc.1+b7", "1.4.0-rc.1+git-4f2a"},
+	// reduced alphabet for dependency LISTS (the same chart several times, via aliases)
+	"multi": {"1.0.0", "1.2.0", "1.10.0", "2.0.0", "2.0.0-rc.1", "nourls"},
 	// reduced alphabet for rewrite histories (file replaced between two loads)
 	"hist": {"1.0.0", "1.2.0", "2.0.0", "1.10.0", "2.0.0-rc.1", "bad", "null", "nourls"},
 }
@@ -115,6 +119,8 @@ var queries = map[string][]string{
 	"resolve-urls": {"*", "1.2.0", "^1.0.0", ">1.0.0 <2.0.0", "~1.2", "9.9.9"},
 	"hyph":         {"", "*", "1.3.0", "1.3.0+git-4f2a", "^1.0.0", ">=1.0.0-0", "9.9.9"},
 	"resolve-hyph": {"*", "1.3.0", "^1.0.0", ">=1.0.0-0"},
+	// every ordered tuple of these is a dependency list on the same chart
+	"resolve-multi": {"*", "^1.0.0", ">1.0.0 <2.0.0", ">=2.0.0-0", "1.2.0", "9.9.9"},
 }
 
 const urllessVersion = "3.0.0"
@@ -332,7 +338,7 @@ func getScratch() *scratch {
 		return theScratch
 	}
 	// housekeeping: scratch directories of workers that were killed long ago
-	if old, _ := filepath.Glob("/var/tmp/c18-*"); len(old) > 0 {
+	if old, _ := filepath.Glob("/var/tmp/c18-[0-9]*"); len(old) > 0 {
 		for _, d := range old {
 			if fi, err := os.Stat(d); err == nil && time.Since(fi.ModTime()) > 6*time.Hour {
 				os.RemoveAll(d)
@@ -599,6 +605,75 @@ func checkResolve(list []string, spelling string, cands []cand, q string) (kind,
 	return "wrong-pick", fmt.Sprintf("dependency range %q locked to %q, highest satisfying indexed version is %s", q, got, versionsOf(cands, acc)), "VIOLATION"
 }
 
+// checkResolveMulti: one parent chart depending on the same chart several
+// times (aliases a0, a1, ...) with the given ranges. Reference: every
+// dependency is resolved on its own; one unsatisfiable range fails the update.
+func checkResolveMulti(list []string, spelling string, cands []cand, ranges []string) (kind, what, class string) {
+	s := getScratch()
+	writeCache(list, spelling)
+	accs := make([][]int, len(ranges))
+	wantErr := false
+	for i, q := range ranges {
+		accs[i], _ = expect(cands, q, false, true)
+		if len(accs[i]) == 0 {
+			wantErr = true
+		}
+	}
+	lockPath := filepath.Join(s.chartDir, "Chart.lock")
+	os.Remove(lockPath)
+	os.RemoveAll(filepath.Join(s.chartDir, "charts"))
+	var sb strings.Builder
+	sb.WriteString("apiVersion: v2\nname: parent\nversion: 0.1.0\ndependencies:\n")
+	for i, q := range ranges {
+		fmt.Fprintf(&sb, "- name: %s\n  alias: a%d\n  version: %q\n  repository: %s\n", chartName, i, q, repoURL)
+	}
+	must(os.WriteFile(filepath.Join(s.chartDir, "Chart.yaml"), []byte(sb.String()), 0o644))
+	m := &downloader.Manager{Out: io.Discard, ChartPath: s.chartDir, SkipUpdate: true, Getters: s.getters,
+		RepositoryConfig: s.repoCfg, RepositoryCache: s.cache, Verify: downloader.VerifyNever}
+	err, pan := safely(m.Update)
+	desc := fmt.Sprintf("dependencies on the same chart (aliases a0..a%d) with ranges %q: ", len(ranges)-1, ranges)
+	lastAnswer = "error"
+	switch {
+	case pan != "":
+		return "panic", desc + "Manager.Update panics: " + pan, "panic"
+	case err != nil && wantErr:
+		return "", "", "error"
+	case err != nil:
+		return "unexpected-error", desc + fmt.Sprintf("update fails (%v) although every range is satisfiable", err), "VIOLATION"
+	}
+	b, rerr := os.ReadFile(lockPath)
+	var lock chart.Lock
+	if rerr == nil {
+		rerr = yaml.Unmarshal(b, &lock)
+	}
+	if rerr != nil || len(lock.Dependencies) != len(ranges) {
+		return "no-lock", desc + fmt.Sprintf("update succeeded but Chart.lock is unusable or has %d entries (%v)", len(lock.Dependencies), rerr), "VIOLATION"
+	}
+	var got []string
+	for _, d := range lock.Dependencies {
+		if d == nil {
+			return "no-lock", desc + "Chart.lock holds a null dependency", "VIOLATION"
+		}
+		got = append(got, d.Version)
+	}
+	lastAnswer = strings.Join(got, ",")
+	for i, q := range ranges {
+		if len(accs[i]) == 0 {
+			return "missing-error", desc + fmt.Sprintf("locked to %v although no downloadable indexed version satisfies %q (dependency %d)", got, q, i), "VIOLATION"
+		}
+		ok := false
+		for _, j := range accs[i] {
+			if cands[j].Version == got[i] {
+				ok = true
+			}
+		}
+		if !ok {
+			return "wrong-pick", desc + fmt.Sprintf("dependency %d (%q) locked to %q, highest satisfying indexed version is %s (lock: %v)", i, q, got[i], versionsOf(cands, accs[i]), got), "VIOLATION"
+		}
+	}
+	return "", "", "locked"
+}
+
 // sortedDesc: precondition of the registry entry point.
 func sortedDesc(tags []string) bool {
 	for i := 1; i < len(tags); i++ {
@@ -655,8 +730,10 @@ type caseSpec struct {
 	Spelling string   `json:"spelling,omitempty"`
 	Query    string   `json:"query"`
 	// histories on one path (entry "history"): load List, then Step, then load again
-	Step  string   `json:"step,omitempty"`  // mutate:<mutator> | rewrite:<mtime mode>
-	List2 []string `json:"list2,omitempty"` // rewrite: the entries of the replacing file
+	// entry "resolve-multi": the ranges of the dependencies on the same chart (Query = ranges joined by |)
+	Ranges []string `json:"ranges,omitempty"`
+	Step   string   `json:"step,omitempty"`  // mutate:<mutator> | rewrite:<mtime mode>
+	List2  []string `json:"list2,omitempty"` // rewrite: the entries of the replacing file
 }
 
 func (cs caseSpec) String() string {
@@ -708,6 +785,12 @@ func runCase(cs caseSpec) (kind, what string) {
 		return k, w
 	case "history":
 		k, w, _ := runHistory(cs)
+		return k, w
+	case "resolve-multi":
+		k, w, _ := checkResolveMulti(cs.List, cs.Spelling, validCands(cs.List), cs.Ranges)
+		if k != "" {
+			w = pre + w
+		}
 		return k, w
 	}
 	return "", ""
@@ -868,7 +951,7 @@ func minimise(cs caseSpec, kind string) caseSpec {
 		}
 		return false
 	}
-	if cur.Entry != "load" && cur.Entry != "history" && cur.Query != "*" {
+	if cur.Entry != "load" && cur.Entry != "history" && cur.Entry != "resolve-multi" && cur.Query != "*" {
 		try(cur.with(func(n *caseSpec) { n.Query = "*" }))
 	}
 	shrink := func(get func(*caseSpec) *[]string) {
@@ -951,6 +1034,11 @@ func keyOf(cs caseSpec, kind string) string {
 			return core.SanitizeKey("history/" + cs.Step + "/" + rel + "/" + kind)
 		}
 		return core.SanitizeKey("history/" + cs.Step + "/" + kind + "/" + shape)
+	}
+	if cs.Entry == "resolve-multi" {
+		// one class per (symptom, number of dependencies on the chart): index and
+		// ranges are in the message and the replay, every pair of ranges would be a key otherwise
+		return core.SanitizeKey(fmt.Sprintf("resolve-multi/%s/same-chart-x%d", kind, len(cs.Ranges)))
 	}
 	k := cs.Entry + "/" + kind + "/" + shape
 	if cs.Entry != "load" {
@@ -1056,10 +1144,10 @@ func has(list []string, tok ...string) bool {
 
 func run(c *core.Ctx) {
 	defer cleanupScratch()
-	type bounds struct{ main, prec, tags, pull, resolve, urls, hyph, hyphVia, alias, rw1, rw2 int }
-	b := bounds{main: 4, prec: 4, tags: 4, pull: 3, resolve: 3, urls: 3, hyph: 4, hyphVia: 3, alias: 3, rw1: 2, rw2: 2}
+	type bounds struct{ main, prec, tags, pull, resolve, urls, hyph, hyphVia, alias, rw1, rw2, multi2, multi3 int }
+	b := bounds{main: 4, prec: 4, tags: 4, pull: 3, resolve: 3, urls: 3, hyph: 4, hyphVia: 3, alias: 3, rw1: 2, rw2: 2, multi2: 2, multi3: 0}
 	if c.Thorough() {
-		b = bounds{main: 5, prec: 5, tags: 6, pull: 4, resolve: 4, urls: 4, hyph: 5, hyphVia: 4, alias: 4, rw1: 3, rw2: 2}
+		b = bounds{main: 5, prec: 5, tags: 6, pull: 4, resolve: 4, urls: 4, hyph: 5, hyphVia: 4, alias: 4, rw1: 3, rw2: 2, multi2: 3, multi3: 2}
 	}
 	c.Bound("hyphen/plus alphabet (8 tokens), load+get YAML and JSON: max entries per chart; via pull / resolve", fmt.Sprintf("%d; %d", b.hyph, b.hyphVia))
 	c.Bound("aliasing histories (load, mutate returned object with each of 8 public mutators, load again), main alphabet, YAML and JSON: max entries", fmt.Sprint(b.alias))
@@ -1271,6 +1359,61 @@ func run(c *core.Ctx) {
 				}
 			}
 		})
+	}
+
+	// Phase 3a: dependency lists naming the same chart several times with
+	// different ranges: every ordered tuple of ranges
+	if only("resolve") || only("resolve-multi") {
+		tuples := [][]string{}
+		rs := queries["resolve-multi"]
+		for _, a := range rs {
+			for _, bq := range rs {
+				tuples = append(tuples, []string{a, bq})
+			}
+		}
+		runTuples := func(maxLen int, tuples [][]string) {
+			enumLists(alphabets["multi"], maxLen, func(list []string) {
+				if !c.NextMine() {
+					return
+				}
+				c.Distinct(fmt.Sprintf("resolve-multi|%d|%s", len(tuples[0]), strings.Join(list, ",")))
+				cands := validCands(list)
+				for _, rg := range tuples {
+					c.Eval(1)
+					k, _, class := checkResolveMulti(list, "yaml", cands, rg)
+					c.Outcome("resolve-multi:" + class)
+					if k != "" {
+						report(c, caseSpec{Entry: "resolve-multi", Alpha: "multi", List: list, Spelling: "yaml", Ranges: rg, Query: strings.Join(rg, "|")}, k)
+						continue
+					}
+					if class == "error" {
+						if a0, _ := expect(cands, rg[0], false, true); len(a0) > 0 {
+							c.Floor("resolve-multi:error-later-only")
+						}
+						continue
+					}
+					c.Floor("resolve-multi:locked")
+					if vs := strings.Split(lastAnswer, ","); len(vs) > 1 && vs[0] != vs[1] {
+						c.Floor("resolve-multi:different-versions")
+						if len(list) >= 2 {
+							sample(map[string]any{"entry": "Manager.Update/resolver.Resolve (same chart twice)", "file_entries": append([]string{}, list...), "ranges": rg, "locked": lastAnswer, "agrees_with_oracle": true})
+						}
+					}
+				}
+			})
+		}
+		runTuples(b.multi2, tuples)
+		if b.multi3 > 0 {
+			var triples [][]string
+			for _, t := range tuples {
+				for _, cq := range rs {
+					triples = append(triples, []string{t[0], t[1], cq})
+				}
+			}
+			runTuples(b.multi3, triples)
+		}
+		c.Bound("resolve, same chart listed twice (aliases), every ordered pair of 6 ranges, multi alphabet (6 tokens): max entries per chart", fmt.Sprint(b.multi2))
+		c.Bound("resolve, same chart listed three times, every ordered triple of 6 ranges: max entries per chart (0 = not run)", fmt.Sprint(b.multi3))
 	}
 
 	// Phase 3b: histories on one path. (a) aliasing: what a caller does to the
